@@ -24,6 +24,9 @@ type cancelParams struct {
 	Cancel int64  `json:"cancel"` // tick of the cancel fault
 	Budget int64  `json:"budget"` // ticks allowed after the cancel
 	Pool   int    `json:"pool"`
+	// Session: the program is the second input of a REPL-like session (one incremental
+	// checker, one VM, InterpretREPL): later inputs are compiled through another path
+	Session bool `json:"session,omitempty"`
 	// API: Go-API clients of one channel using only the context-aware operations; the
 	// cancel is the only thing that can release a blocked client (shape "api_chan_cancel")
 	API *syncParams `json:"api,omitempty"`
@@ -189,6 +192,7 @@ func (*c33Engine) Generate(seed uint64, tier string) *Case {
 		b.WriteString("println \"unreachable ${x}\"\n")
 	}
 	p.Src = b.String()
+	p.Session = r.Chance(0.3)
 	// log-uniform cancel instant
 	maxExp := 16
 	p.Cancel = int64(1) << uint(r.Intn(maxExp))
@@ -231,7 +235,18 @@ func (*c33Engine) Execute(t *testing.T, c *Case) *Verdict {
 		return v
 	}
 	resetElk()
-	chunk, diags, failed, panicked := compileElk(p.Src, true)
+	var chunk, warm *vm.BytecodeFunction
+	var diags, panicked string
+	var failed bool
+	if p.Session {
+		var chunks []*vm.BytecodeFunction
+		chunks, diags, failed, panicked = compileElkSession([]string{"sess_warm := 1\nsess_warm + 1\n", p.Src})
+		if !failed && len(chunks) == 2 {
+			warm, chunk = chunks[0], chunks[1]
+		}
+	} else {
+		chunk, diags, failed, panicked = compileElk(p.Src, true)
+	}
 	if panicked != "" {
 		return &Verdict{Verdict: "harness_error", Class: "compile_panic", Detail: panicked + "\n" + p.Src}
 	}
@@ -272,7 +287,15 @@ func (*c33Engine) Execute(t *testing.T, c *Case) *Verdict {
 			abort()
 		}
 		v := vm.New(vm.WithStdout(e.Out), vm.WithStderr(e.Out), vm.WithAborter(value.NewAborter(vmCtx, abortExecution)))
-		_, rerr := v.InterpretTopLevel(chunk)
+		var rerr value.Value
+		if warm != nil {
+			_, rerr = v.InterpretREPL(warm)
+			if rerr.IsUndefined() {
+				_, rerr = v.InterpretREPL(chunk)
+			}
+		} else {
+			_, rerr = v.InterpretTopLevel(chunk)
+		}
 		if !rerr.IsUndefined() {
 			oc.Err = rerr.Inspect()
 		}
@@ -285,9 +308,12 @@ func (*c33Engine) Execute(t *testing.T, c *Case) *Verdict {
 	v := &Verdict{Verdict: "ok", Property: "C33", Exec: 1, Res: &oc.Res}
 	v.Hash = hashStrings(p.Src, fmt.Sprint(p.Cancel), hashDecisions(res.Decisions))
 	v.Nontrivial = cancelled
-	v.Extra = map[string]int64{"shape_" + p.Shape: 1, "where_" + p.Where: 1, "cancel_fired": b2i(cancelled)}
+	v.Extra = map[string]int64{"shape_" + p.Shape: 1, "where_" + p.Where: 1, "cancel_fired": b2i(cancelled), "second_input_of_a_session": b2i(p.Session)}
 	v.Sample = map[string]any{"shape": p.Shape, "where": p.Where, "cancel_tick": p.Cancel, "cancel_applied_at": cancelAt, "end_tick": res.Ticks, "main_error": oc.Err, "outcome": res.Outcome}
 	tag := p.Shape + "@" + p.Where
+	if p.Session {
+		tag += "@session"
+	}
 	known := false
 	for _, s := range cancelShapes {
 		if s.name == p.Shape && s.known {
